@@ -388,7 +388,9 @@ class SRC:
 
         if config.allow_plugins:
             value = self.parse(hexwords)
-            if value != '' and value != 'null':
+            # An SRC parser that returns nothing (None or an empty string)
+            # provides no details; it must not fail the whole PEL.
+            if value and value != 'null':
                 out["SRC Details"] = json.loads(value)
 
         return out
